@@ -174,6 +174,8 @@ def correspondence(ctx):
         ill += G.mutated(fmt, rng, count=(4 if fmt in ('vhdx', 'vmdk') else 8) if ctx.quick else None)
     ill += [m for m in G.mutated('iso', rng) if 'be-halves' in m.tag]
     ill += [m for m in G.mutated('vhdx', rng) if 'item_len' in m.tag][:3 if ctx.quick else 6]
+    pre = G.thin(ctx, pre, lambda i: i.fmt)
+    ill = G.thin(ctx, ill, lambda i: i.fmt)
     imgs = sorted(imgs + pre + ill, key=lambda i: len(i.data) > 64 * G.K)
     pairs, spent = [], 0
     for img in imgs:
@@ -314,7 +316,7 @@ def check_wellformed(ctx, img, expected, fam, fails, what, poll_p=0.35, forced=N
         if len(sizes) <= 1200 and (full or rng.random() < 0.25):
             drive = rng.choice(G.WRAPPER_DRIVES) if len(sizes) >= 2 else rng.choice(['read', 'for', 'next', 'close-twice'])
             variants.append(dict(wrapper=drive, k=rng.randrange(1, max(2, len(sizes))), form=rng.randrange(64),
-                                 allowed=allowed_subset(img.fmt, rng), subclass=rng.choice([None, 'trivial', 'override'])))
+                                 allowed=allowed_subset(img.fmt, rng), subclass=rng.choice((None,) + G.SUBCLASS_KINDS)))
             if full and len(sizes) >= 2:
                 for drive in G.WRAPPER_DRIVES:
                     variants.append(dict(wrapper=drive, k=rng.randrange(1, len(sizes)), form=rng.randrange(64), allowed=None))
